@@ -1,5 +1,34 @@
 //@@ unit props=C14,C06 rlimit=1500
-// Unit xlsbfml: the [MS-XLSB] token renderer `parse_formula` of src/xlsb/mod.rs (verbatim text) under Verus.
+// Unit xlsbfml: the [MS-XLSB] token renderer `parse_formula` of src/xlsb/mod.rs (verbatim text, one 330-line function, recursive) and
+// check_len, under Verus.
+//
+// String model (copied from the sibling unit xlsfml, same text): a String is its Seq<char>; byte offsets (String::len / split_off / insert /
+// &s[a..b]) are related to it by the UTF-8 width of each char (blen / is_bnd / cidx) -- no ASCII assumption.
+// ORACLE written from [MS-XLSB] 2.5.97: decode (one token -> Tok + size), apply / step / run / render (operand stack semantics), cell_text /
+// area_text (RgceLoc / RgceArea with ColRelShort: col bits 0-13, fColRel bit 14, fRwRel bit 15; `$` exactly on absolute components),
+// binop (Ptg table), err_text (BErr), quoted (string literal with doubled quotes), col_name (bijective base 26 = contract of push_column,
+// proved in unit colname; lemma_colname_contract shows the three proved clauses determine the text).
+// Under contract (all discharged on the repaired text, fixes/xlsbfml_1..9):
+//   C06 (entry point, every input): invariant C06.stack_offsets_are_char_boundaries (opaque sorted_bnds: the stack holds ascending char
+//     boundaries of the text) carried through all 27 arms by lemma_struct / lemma_S_push / _grow / _top / _func; hence every String::split_off /
+//     insert / &fargs[a..b] precondition, `*s -= start`, every slice / index / read_u16 / read_u32 / read_f64 obligation (through the
+//     check_len guards), FTAB / FTAB_ARGC / sheets / names lookups, `+ 1` / `- 1` arithmetic, the two inner loops, termination of the loop and
+//     of the recursion (PtgMemFunc) -- about 110 implicit obligations; check_len: Err exactly when too short.
+//   C14 per token (labelled, named xlsb_*_text): the text an arm appends / inserts is the oracle's text for that token and the bytes consumed
+//     are the token's size: PtgRef, PtgArea, PtgRef3d, PtgArea3d (flags + masked column + one-based row, via lemma_code_cell /
+//     lemma_xlsb_ptg*_text), PtgRefErr / AreaErr / RefErr3d / AreaErr3d, PtgStr (quotes doubled), PtgErr, PtgBool, PtgInt, PtgNum (Display of
+//     the double: uninterpreted), PtgName (one-based), PtgMissArg, binary operators 0x03-0x11 (xlsb_binary_operator_text), unary + / -,
+//     parentheses, PtgAttrSum.
+//   NOT under contract: the whole-function equality `render(rgce) == Some(t) ==> res == Ok(t)` (the operand-list invariant `repr` of unit
+//     xlsfml) and therefore the argument order / commas of function calls (FTAB name + '(' + args + ')') -- only their C06 side is proved;
+//     PtgExp, PtgArray, PtgExtend, PtgAttrChoose, PtgMemFunc, PtgNameX are outside the oracle (see `decode`).
+// TRUSTED (all marked): String::len / with_capacity / insert / split_off / Index<Range>, Vec::<&mut>::into_iter, <[T]>::windows + Windows::next
+//   (win_rem model, rule R6), Option::map_or, Cow deref, UTF_16LE.decode stand-in (dec16 / BOM sniffing: strings starting with a BOM are
+//   outside the oracle -- the sniffing defect is the registered C19 finding of unit xlsbrec), str::replace(char, &str) (axiom_replace_quote),
+//   format! expansion R13 (verif_fmt_arg + Display axioms for u16 / u32 / u64 = decimal digits), read_* (common/bytes.rs, Kani), push_column
+//   (unit colname), the closure of `and_then` (spec written on it, verified by Verus against its body).
+// Declared rewrites: r13 (format!), r4 (check_len's message), mutparams (`mut rgce`), r6 on `for w in args.windows(2)`.
+// Findings: findings/xlsbfml.json (all nine repaired: "fixed"); the demonstration-only finding about PtgArray stays with findings/xlsbf.json.
 #![feature(allocator_api)]
 #![feature(pattern)]
 #![allow(unused_imports, dead_code, unused_variables, unused_mut, unused_assignments, unexpected_cfgs, deprecated)]
